@@ -343,8 +343,10 @@ theorem Pres.connectBestChain (hP : Pres P S A Q) (s : State) (b : Blk) (hb : S 
       · split
         · exact h
         · split
-          · split <;> exact h
-          · exact hP.reorgTo s b _ h
+          · exact h
+          · split
+            · exact h
+            · exact hP.reorgTo s b _ h
 
 theorem storeBlock_seen {s s1 : State} {b : Blk} (hs : Seen S s) (hb : S b) (h : storeBlock s b = some s1) :
     Seen S s1 := by
